@@ -144,7 +144,11 @@ func (p SpendPolicy) Verify(height uint64, medianTimestamp time.Time, sigHash Ha
 			}
 			return fmt.Errorf("height (%v) not above %v", height, uint64(p))
 		case PolicyTypeAfter:
-			if medianTimestamp.After(time.Time(p)) {
+			// NOTE: compare Unix seconds rather than time.Time values: for lock
+			// times near the end of the int64 range, time.Unix wraps around
+			// internally and time.Time.After would report the lock as long past
+			lock := time.Time(p)
+			if m, l := medianTimestamp.Unix(), lock.Unix(); m > l || (m == l && medianTimestamp.Nanosecond() > lock.Nanosecond()) {
 				return nil
 			}
 			return fmt.Errorf("median timestamp (%v) not after %v", medianTimestamp, time.Time(p))
